@@ -639,6 +639,8 @@ func c07(w *core.World, r *core.Report) {
 	if c != nil {
 		ruleCheckpointDbFromBatch(w, r, c)
 	}
+	r.Rule("R06.13", "a full resynchronisation under a new id starts from the 'none yet' marker and from nothing else: the old id's records are removed from every database before the marker is written and a failed removal ends the drop, or the new history inherits an offset of the previous one - a stored position that is no command boundary of the history replayed, followed by smaller ones (shared with C06; seed C07-14)", 1)
+	ruleDropRemovesEveryRecord(w, r)
 }
 
 func isIfaceCall(v ssa.Value, suffix string) bool {
